@@ -252,7 +252,7 @@ func init() {
 		var cases []Case
 		periods := []time.Duration{time.Second, 10 * time.Second, time.Minute}
 		i := 0
-		for rep := 0; rep < tierPick(tier, 1, 3); rep++ {
+		for rep := 0; rep < tierPick(tier, 1, 10); rep++ {
 			for _, P := range periods {
 				for _, lr := range e14Lat {
 					for _, cr := range e14Cons {
